@@ -157,6 +157,31 @@ impl Check for C17 {
                 return fail("add!=add_hashed(hash_one)", format!("after add({}) under {:?} the twin fed add_hashed(hash_one) differs", k, c.hk));
             }
         }
+        // the same law for unsized and composite element types (only meaningful for real hashers)
+        if matches!(c.hk, HKind::Sip | HKind::Seeded(_)) && !c.keys.is_empty() && b <= 14 {
+            use std::hash::BuildHasher;
+            let mut s1: HyperLogLog<str, GenBH> = HyperLogLog::with_hash(b, bh);
+            let mut s2: HyperLogLog<str, GenBH> = HyperLogLog::with_hash(b, bh);
+            let mut y1: HyperLogLog<[u8], GenBH> = HyperLogLog::with_hash(b, bh);
+            let mut y2: HyperLogLog<[u8], GenBH> = HyperLogLog::with_hash(b, bh);
+            let mut t1: HyperLogLog<(u32, u64), GenBH> = HyperLogLog::with_hash(b, bh);
+            let mut t2: HyperLogLog<(u32, u64), GenBH> = HyperLogLog::with_hash(b, bh);
+            for &k in &c.keys {
+                let st = format!("key-{}", k);
+                s1.add(st.as_str());
+                s2.add_hashed(bh.hash_one(st.as_str()));
+                let by = k.to_le_bytes();
+                let sl: &[u8] = &by[..(1 + (k % 8) as usize)];
+                y1.add(sl);
+                y2.add_hashed(bh.hash_one(sl));
+                let tu = ((k >> 40) as u32, k);
+                t1.add(&tu);
+                t2.add_hashed(bh.hash_one(tu));
+            }
+            if s1.registers() != s2.registers() || y1.registers() != y2.registers() || t1.registers() != t2.registers() {
+                return fail("add!=add_hashed(hash_one):non-u64-elements", format!("add(x) differs from add_hashed(hash_one(x)) for str / [u8] / tuple elements under {:?}", c.hk));
+            }
+        }
         let keyhashes: Vec<u64> = c.keys.iter().map(|&k| hash_one_u64(&bh, k)).collect();
         if t1.registers() != &ref_registers(&keyhashes, b)[..] {
             return fail("add-registers!=model", "registers after add(x) differ from the model over hash_one(x)".to_string());
@@ -201,7 +226,7 @@ pub fn checks() -> Vec<Box<dyn DynCheck>> {
 }
 
 pub fn run(ctx: &Ctx) {
-    ctx.set_rule("generated: b in 4..=18, multiset of <=120 (quick) / <=300 (thorough) 64-bit hashes from {random, 0, MAX, single bits, low-bits-only, chosen register+rank}, a permutation and duplication pattern, keys for add under Ident/Sip/Seeded/Mix hashers. Non-trivial: >=2 hashes address one register with different ranks, or a hash with all upper bits zero is present. Distinct = hash of (b, sorted distinct hashes, keys, hasher).");
+    ctx.set_rule("generated: b in 4..=18, multiset of <=120 (quick) / <=300 (thorough) 64-bit hashes from {random, 0, MAX, single bits, low-bits-only, chosen register+rank}, a permutation and duplication pattern, keys for add under Ident/Sip/Seeded/Mix hashers (u64 elements; under the real hashers also str, [u8] and tuple elements). Non-trivial: >=2 hashes address one register with different ranks, or a hash with all upper bits zero is present. Distinct = hash of (b, sorted distinct hashes, keys, hasher).");
     ctx.assume("reference register model written from the property text (bit scan), not from the implementation's leading_zeros formula");
     ctx.run_regressions(&[&C17]);
     let tier = ctx.tier;
